@@ -13,7 +13,7 @@ import (
 // C10 — a UDP datagram is processed in isolation from every other datagram (DESIGN.md §4 C10).
 
 var c10Shapes = []string{"small", "large", "body", "overdeclared", "underdeclared", "cut-startline", "cut-header", "cut-blankline", "cut-body", "blanks", "two-in-one", "overdeclared-big",
-	"empty", "crlf-body", "crlf-overdeclared", "crlf-cut-blankline"}
+	"empty", "crlf-body", "crlf-overdeclared", "crlf-cut-blankline", "const-branch"}
 
 // c10Datagram: the bytes of shape sh at position i (the Call-ID carries i and the shape).
 func c10Datagram(sh string, i int) []byte {
@@ -54,6 +54,16 @@ func c10Datagram(sh string, i int) []byte {
 		panic("harness: no datagram of " + sh)
 	}
 	switch sh {
+	case "const-branch":
+		// a sender that uses one and the same branch for every request (RFC 2543 style, or a re-sent request with
+		// credentials): method, sent-by and branch equal an earlier datagram's, Call-ID, marker and body do not
+		m := mk(fill(120, "CONSTBRANCH"), "")
+		for k := range m.Hdrs {
+			if m.Hdrs[k].Name == "Via" {
+				m.Hdrs[k].Value = "SIP/2.0/UDP 127.0.0.9:5060;branch=z9hG4bKconstant"
+			}
+		}
+		return m.Render()
 	case "small":
 		return mk(nil, "").Render()
 	case "large":
